@@ -119,3 +119,22 @@ MUTATIONS += [
     ("unbox-idpack-without-instance-id", ["C03"], P, "            id_pack = (str(value[0]), value[1], value[2])  # so value is a id_pack",
      "            id_pack = (str(value[0]), value[1], value[2] and 1)  # so value is a id_pack"),
 ]
+
+MUTATIONS += [
+    # ---- C09: vinegar
+    ("vinegar-traceback-gate-ignored", ["C09"], V, "    if include_local_traceback:\n", "    if True:\n"),
+    ("vinegar-version-gate-ignored", ["C09"], V, "    if include_local_version:\n", "    if True:\n"),
+    ("vinegar-args-str-not-repr", ["C09"], V, "                    args.append(repr(a))", "                    args.append(str(a))"),
+    ("vinegar-instantiate-inverted", ["C09"], V, "    if instantiate_custom_exceptions:\n        if modname in sys.modules:",
+     "    if not instantiate_custom_exceptions:\n        if modname in sys.modules:"),
+    ("vinegar-builtins-test-dropped", ["C09", "C07"], V, "    elif modname == exceptions_module.__name__:\n        cls = getattr(exceptions_module, clsname, None)",
+     "    elif modname in sys.modules:\n        cls = getattr(sys.modules[modname], clsname, None)"),
+    ("vinegar-new-to-call", ["C09", "C07"], V, "        exc = cls.__new__(cls)", "        exc = cls()"),
+    ("vinegar-baseexception-test-dropped", ["C09", "C07"], V, "    if not isinstance(cls, type) or not issubclass(cls, BaseException):",
+     "    if not isinstance(cls, type):"),
+    ("vinegar-derived-loses-name", ["C09"], V, "    Derived.__name__ = cls.__name__\n", "    pass\n"),
+    ("vinegar-private-attrs-copied", ["C09"], V, '        elif name.startswith("_") or name in ignored_attrs:', '        elif name.startswith("__") or name in ignored_attrs:'),
+    ("vinegar-import-unconditional", ["C09", "C07"], V, "    if import_custom_exceptions and modname not in sys.modules:", "    if modname not in sys.modules:"),
+    ("vinegar-attr-values-stringified", ["C09"], V, "            if not brine.dumpable(attrval):\n                attrval = repr(attrval)",
+     "            if not isinstance(attrval, (int, str)):\n                attrval = repr(attrval)"),
+]
